@@ -37,6 +37,9 @@ class StrSym:
 
 # ------------------------------------------------------------------ operators
 def binop(I, op, a, b):
+    from . import peg
+    if isinstance(a, peg.PE) or isinstance(b, peg.PE):
+        return peg.binop(op.__class__.__name__, a, b)
     if isinstance(a, Phi):
         return merge(a.cond, binop(I, op, a.a, b), binop(I, op, a.b, b))
     if isinstance(b, Phi):
@@ -368,7 +371,8 @@ def truth(I, v):
         raise AnalysisError("truth value of an array")
     if isinstance(v, Phi):
         return sp.ITE(v.cond, truth(I, v.a), truth(I, v.b))
-    if isinstance(v, (SymObj, Closure, ClassVal, BoundMethod, Builtin, ModuleVal, StrSym, ReObj, GenVal)):
+    from . import peg as _peg
+    if isinstance(v, (SymObj, Closure, ClassVal, BoundMethod, Builtin, ModuleVal, StrSym, ReObj, GenVal, _peg.PE)):
         return sp.true
     if _alg(v):
         e = to_expr(v)
@@ -470,6 +474,12 @@ def _vflat(x):
 
 def value_attr(I, obj, name):
     """Attributes / methods of plain values."""
+    from . import peg
+    if isinstance(obj, peg.PE):
+        m = obj.methods(I)
+        if name in m:
+            return m[name]
+        raise AnalysisError(f"pyparsing method {name} is not modelled")
     if _alg(obj):
         e = to_expr(obj)
         if name == "real":
@@ -863,6 +873,12 @@ def external(I, dotted):
         return Builtin(dotted, refn)
     if dotted == "copy.copy":
         return I.builtins["copy.copy"]
+    if mod == "pyparsing":
+        from . import peg
+        cons = peg.constructors(I)
+        if name in cons:
+            return cons[name]
+        raise AnalysisError(f"pyparsing.{name} is not modelled")
     if dotted == "functools.cmp_to_key":
         return Builtin(dotted, lambda f: CmpKey(f))
     if dotted == "functools":
